@@ -38,7 +38,7 @@ VarAgrees(v, var, o) ==
 Explicit == IsUGrid(B) \/ IsArakawa(B) \/ HasField(B.geom, "xb")
 
 Names == {"Completed", "SameConvention", "CellsAreOriginalCells", "SelectedKeepPolygon", "ValuesAreOriginal", "VariablesPresent",
-          "BindingState", "AnswerMatches"}
+          "BindingState", "AnswerMatches", "QueryAnswer", "CellValues"}
 
 \* evaluated in the post-state (primed variables) of the specification action
 Holds(name, e) ==
@@ -65,6 +65,23 @@ Holds(name, e) ==
     [] name = "BindingState" ->
          /\ Len(e.obs.bound) = Len(objs')
          /\ \A o \in 1..Len(objs') : e.obs.bound[o] = objs'[o].bound
+    [] name = "QueryAnswer" ->
+         \* a point strictly inside original cell n: found at n's position where the view still has the cell selected, not
+         \* found where the view does not have the cell (geometry given explicitly), either where it is cropped in but blanked
+         (e.a = "Query" /\ e.obs.ok) =>
+            LET vq == objs[e.obj]  p == PosOfCell(vq, e.cell) IN
+            /\ (e.cell \in vq.sel /\ Explicit) => e.obs.answer = p
+            /\ (p = -1 /\ Explicit) => e.obs.answer = -1
+            /\ e.obs.answer \in {p, -1}
+    [] name = "CellValues" ->
+         (e.a = "SelectCell" /\ e.obs.ok) =>
+            LET vq == objs[e.obj] IN
+            \A nm \in vq.vars :
+               /\ HasVarS(e.obs.cell, nm)
+               /\ LET var == VarOf(nm)  o == ObsVarS(e.obs.cell, nm)
+                      oshape == [m \in 1..Len(OtherPos(var)) |-> var.shape[OtherPos(var)[m]]]
+                  IN /\ o.shape = oshape /\ Len(o.data) = ProdSeq(oshape)
+                     /\ \A q \in 1..Len(o.data) : o.data[q] = ValueOf(vq, var, UnravelRM(oshape, q - 1), e.pos)
     [] name = "AnswerMatches" ->
          /\ (e.a = "Access" => e.obs.conv = out'.conv)
          /\ (e.a \in {"Copy", "ApplyMask", "SelectVariables", "Open"} => e.obs.subject = out'.new)
@@ -76,6 +93,9 @@ SeenOf(e) == {e.a, B.conv}
   \cup (IF e.a = "ApplyMask" /\ objs[e.obj].off # 0 THEN {"clip-after-mutation"} ELSE {})
   \cup (IF e.a = "Open" /\ files[e.file].view.cells # BaseViewOf(B).cells THEN {"reopen-clipped"} ELSE {})
   \cup (IF e.a = "LoadMask" THEN {"mask-reloaded"} ELSE {})
+  \cup (IF e.a = "Query" /\ PosOfCell(objs[e.obj], e.cell) = -1 THEN {"query-clipped-away"} ELSE {})
+  \cup (IF e.a = "Query" /\ PosOfCell(objs[e.obj], e.cell) >= 0 /\ objs[e.obj].cells # BaseViewOf(B).cells THEN {"query-on-derived"} ELSE {})
+  \cup (IF e.a = "SelectCell" /\ objs[e.obj].cells # BaseViewOf(B).cells THEN {"cell-of-derived"} ELSE {})
   \cup (IF e.a = "ApplyMask" /\ e.mask <= Len(masks) /\ e.obj # 1 THEN {"mask-on-other-dataset"} ELSE {})
 
 Done == t > Len(TLog)
@@ -94,6 +114,8 @@ Act(e) ==
     [] e.a = "Mutate" -> Mutate(e.obj, e.k)
     [] e.a = "Save" -> Save(e.obj)
     [] e.a = "Open" -> Open(e.file)
+    [] e.a = "Query" -> Query(e.obj, e.cell)
+    [] e.a = "SelectCell" -> SelectCell(e.obj, e.pos)
 
 Step ==
   /\ ~Done /\ UNCHANGED B
